@@ -18,15 +18,16 @@
                       "ms": max wall ms, "kib": max KiB allocated } ... ] }
    Outcomes logged by the harness: "ok", "err", "panic", "timeout", "fatal".
 
-   Output: <<"REJECT", record, group, reason>> per rejected group (group 0 = the record
-   itself), <<"JUDGED", records>> at the end.                                      *)
+   Output: <<"REJECT", record, group, reason, entry point or "*">> per rejected group
+   (group 0 = the record itself; "*" = every entry point of the group),
+   <<"JUDGED", records>> at the end.                                      *)
 EXTENDS Inputs, Json
 
 CONSTANT ObsFile      \* name of the NDJSON file of observations (next to the module)
 
 Obs == ndJsonDeserialize(ObsFile)
 
-Reject(i, j, why) == PrintT(<<"REJECT", i, j, why>>)
+Reject(i, j, why, ep) == PrintT(<<"REJECT", i, j, why, ep>>)
 
 SeqSet(s) == { s[x] : x \in DOMAIN s }
 
@@ -34,13 +35,13 @@ JudgeGroup(i, rec, j) ==
   LET g == rec.g[j]
       os == SeqSet(g.os)
       eps == { rec.eps[x + 1] : x \in SeqSet(g.e) }
-      allowed(ep) == IF rec.sw > 0 THEN Outcomes ELSE Allowed(rec.k, rec.p, ep, rec.sc, rec.cut)
-  IN /\ (os \subseteq Outcomes \/ Reject(i, j, "outcome"))
-     /\ (g.ms <= TimeLimitMs \/ Reject(i, j, "time"))
-     /\ (g.kib <= AllocLimitKiB(rec.len) \/ Reject(i, j, "alloc"))
+      allowed(ep) == IF rec.sw > 0 THEN Outcomes ELSE Allowed(rec.k, rec.p, ep, rec.sc, rec.cut, rec.len)
+  IN /\ (os \subseteq Outcomes \/ Reject(i, j, "outcome", "*"))
+     /\ (g.ms <= TimeLimitMs \/ Reject(i, j, "time", "*"))
+     /\ (g.kib <= AllocLimitKiB(rec.len) \/ Reject(i, j, "alloc", "*"))
      /\ \A ep \in eps :
           ((os \cap Outcomes) \subseteq allowed(ep) \/
-             Reject(i, j, IF allowed(ep) = { "ok" } THEN "narrow-ok" ELSE "narrow-err"))
+             Reject(i, j, IF allowed(ep) = { "ok" } THEN "narrow-ok" ELSE "narrow-err", ep))
 
 (* every entry point of the kind was run in every mode: nothing is silently skipped *)
 Complete(rec) ==
@@ -49,10 +50,10 @@ Complete(rec) ==
 
 JudgeRecord(i) ==
   LET rec == Obs[i] IN
-  /\ (rec.k \in Kinds \/ Reject(i, 0, "kind"))
+  /\ (rec.k \in Kinds \/ Reject(i, 0, "kind", "*"))
   /\ rec.k \in Kinds =>
-       /\ (rec.sw > 0 \/ WellFormed(rec.k, rec.p) \/ Reject(i, 0, "program"))
-       /\ (Complete(rec) \/ Reject(i, 0, "eps"))
+       /\ (rec.sw > 0 \/ WellFormed(rec.k, rec.p) \/ Reject(i, 0, "program", "*"))
+       /\ (Complete(rec) \/ Reject(i, 0, "eps", "*"))
        /\ \A j \in DOMAIN rec.g : JudgeGroup(i, rec, j)
 
 ASSUME \A i \in DOMAIN Obs : JudgeRecord(i)
